@@ -662,4 +662,4 @@ def replay(path: str) -> int:
         print("REJECTED:", what)
     for fid, (f, n) in v.known_hits.items():
         print("KNOWN:", fid, n)
-    return 1 if (v.violations or v.known_hits) else 0
+    return 1 if v.violations else 0
